@@ -1,7 +1,8 @@
 (* C09 — Assignability implies containment; overlap detection is complete.
    ONLY the property theorems, each closed by `exact <lemma>` and followed by Print Assumptions.
    Models: Types.v (registry), Rel.v (check_type_relation, `current_cfg` = /repo after the fix:
-   commits 5207502 (F7), 2246a47 (F12), 2932723 (F29), 7ba69a0 (F25p)), Narrow.v (incl. f9e893e, F26).  Specification: Sem.v (`inhab`).
+   commits 5207502 (F7), 2246a47 (F12), 2932723 (F29), 7ba69a0 (F25p), e7dcc7d (F55)), Narrow.v (incl. f9e893e = F26,
+   2bb39f1 = F56).  Specification: Sem.v (`inhab`).
 
    What is PROVED (for every registry, unbounded):
      compat_sound_partial      is_compatible => containment, on the cycle-free fragment
